@@ -1,9 +1,9 @@
 #!/bin/bash
-# usage: confirm_seeded.sh <worktree> <seed id> <property id>
+# usage: confirm_seeded.sh <worktree> <seed id> <property id> [race]
 # Confirms a seeded change in a scratch worktree (suite passes with it; demo fails with it and passes
 # without it), stores it under /verif/seeded/<seed id>/ and records which checks catch it.
 set -u
-WT="$1"; SID="$2"; PROP="$3"
+WT="$1"; SID="$2"; PROP="$3"; RACE=""; [ "${4:-}" = race ] && RACE="-race"
 export GOFLAGS=-mod=mod GOPROXY=off GOSUMDB=off GOTOOLCHAIN=local GOWORK=off
 cd "$WT" || exit 2
 DEMO=$(git status --porcelain | awk '/^\?\? .*_test\.go$/ {print $2}' | head -1)
@@ -15,9 +15,9 @@ echo "demo=$DEMO pkg=$PKG"
 go build ./... || { echo "BUILD FAILS"; exit 1; }
 SUITE=$(go test -vet=off -count=1 -skip 'TestSeededDemo' ./... 2>&1 | grep -cE '^(FAIL|---\s*FAIL)')
 echo "suite failures with change: $SUITE"
-WITH=$(timeout 600 go test -vet=off -count=1 -run 'TestSeededDemo' "$PKG" 2>&1 | tail -3 | grep -cE '^(FAIL|panic)|FAIL')
+WITH=$(timeout 900 go test $RACE -vet=off -count=1 -run 'TestSeededDemo' "$PKG" 2>&1 | tail -3 | grep -cE '^(FAIL|panic)|FAIL')
 git stash -q
-WITHOUT=$(timeout 600 go test -vet=off -count=1 -run 'TestSeededDemo' "$PKG" 2>&1 | tail -3 | grep -cE '^ok')
+WITHOUT=$(timeout 900 go test $RACE -vet=off -count=1 -run 'TestSeededDemo' "$PKG" 2>&1 | tail -3 | grep -cE '^ok')
 git stash pop -q
 echo "demo fails with change: $WITH ; demo passes without: $WITHOUT"
 if [ "$SUITE" != "0" ] || [ "$WITH" = "0" ] || [ "$WITHOUT" = "0" ]; then echo "NOT CONFIRMED"; exit 1; fi
